@@ -241,7 +241,15 @@ def run_property(pid: str, fn, tier: str, seed: int, only_key: tuple | None = No
             _grammar.PENDING_LIMITS.clear()
         except Exception:  # noqa: BLE001
             _grammar = None
-        fn(rep)
+        try:
+            fn(rep)
+        except AnalysisError as e_:
+            # part of the check could not be carried out; what was found before that point is concrete evidence and is reported
+            known__ = load_known_findings()
+            if any(match_known(f, known__) is None for f in rep.findings):
+                rep.limit(str(e_))
+            else:
+                raise
         if _grammar is not None:
             for m_ in _grammar.PENDING_LIMITS:
                 rep.limit(m_)
